@@ -95,6 +95,70 @@ def run(chk):
     chk.cov["traces_validated_against_impl"] = len(icases)
     chk.cov["disagreements_checked"] = ndis
     ext_resolver2.run_streams(chk, quick, which=("budgets",))
+    # programs with `asm` blocks (inner convergence loops): budget sweep 1..16 and 30 on the implementation
+    import c17
+    c17.budget_stream(chk, quick, R=R)
+    cli_budget_stream(chk, quick, R)
+
+
+def cli_budget_stream(chk, quick, R):
+    """the budget the user gives on the command line is the budget the resolver gets, wherever `-t`/`--iters` stands
+    (before or after the file, in the first or a later `--`-separated output group): the real binary must succeed
+    exactly when the library entry point does at that budget, with the same bits and a reported pass count <= N"""
+    import os, re, subprocess, tempfile, shutil
+    exe = vlib.customasm_build(("debug",))["debug"]
+    rng = chk.rng.fork("c09-cli")
+    progs = []
+    while len(progs) < (24 if quick else 150):
+        p = asm_gen.gen_chain_prog(rng) if rng.chance(0.6) else asm_gen.gen_shift_prog(rng)
+        progs.append(p.text())
+    budgets = [1, 2, 3, 4, 12]
+    lib = R.impl([(t, b, True, True) for t in progs for b in budgets])
+    shapes = [
+        lambda n: ["f.asm", "-t", str(n), "-f", "hexstr", "-o", "o1"],
+        lambda n: ["--iters=%d" % n, "f.asm", "-f", "hexstr", "-o", "o1"],
+        lambda n: ["-t", str(n), "f.asm", "-f", "hexstr", "-o", "o1", "--", "-f", "symbols", "-o", "o2"],
+        lambda n: ["f.asm", "-f", "hexstr", "-o", "o1", "-t%d" % n, "--", "-f", "binary", "-o", "o2", "--", "-f", "annotated", "-o", "o3"],
+        lambda n: ["f.asm", "-f", "hexstr", "-o", "o1", "--", "-t", str(n), "-f", "symbols", "-o", "o2"],
+    ]
+    tmp = tempfile.mkdtemp(prefix="c09cli", dir=vlib.CACHE)
+    dist = {"ok": 0, "err": 0}
+    nrun = 0
+    try:
+        for pi, t in enumerate(progs):
+            with open(os.path.join(tmp, "f.asm"), "w") as f:
+                f.write(t)
+            for bi, b in enumerate(budgets):
+                want = asm_gen.canon_impl(lib[pi * len(budgets) + bi])
+                for si, sh in enumerate(shapes):
+                    for o in ("o1", "o2", "o3"):
+                        if os.path.exists(os.path.join(tmp, o)):
+                            os.remove(os.path.join(tmp, o))
+                    args = sh(b)
+                    pr = subprocess.run([exe] + args, cwd=tmp, capture_output=True, text=True, timeout=60)
+                    nrun += 1
+                    m = re.search(r"resolved in (\d+) iteration", pr.stdout + pr.stderr)
+                    got_ok = pr.returncode == 0
+                    bits = None
+                    if got_ok and os.path.exists(os.path.join(tmp, "o1")):
+                        hx = open(os.path.join(tmp, "o1")).read().strip()
+                        bits = "".join(bin(int(c, 16))[2:].zfill(4) for c in hx)
+                    rep = {"kind": "cli-budget", "program": t, "budget": b, "args": args, "exit": pr.returncode,
+                           "stdout": (pr.stdout + pr.stderr)[-600:], "library": lib[pi * len(budgets) + bi][:300]}
+                    if got_ok != (want[0] == "OK"):
+                        chk.violation("command line %s: the binary %s although the library entry point %s with budget %d"
+                                      % (" ".join(args), "succeeds" if got_ok else "fails", "succeeds" if want[0] == "OK" else "fails", b), rep)
+                    elif got_ok:
+                        # hexstr pads to a whole hex digit
+                        wb = want[1] + "0" * (-len(want[1]) % 4)
+                        if bits != wb:
+                            chk.violation("command line %s: output differs from the library's at budget %d" % (" ".join(args), b), rep)
+                        elif m and int(m.group(1)) > b:
+                            chk.violation("command line %s: reports %s passes with budget %d" % (" ".join(args), m.group(1), b), rep)
+                    dist["ok" if got_ok else "err"] += 1
+    finally:
+        shutil.rmtree(tmp, ignore_errors=True)
+    chk.count("cli_budget_runs", nrun, **{"cli_" + k: v for k, v in dist.items()})
 
 
 def replay(chk, rep):
